@@ -4,6 +4,7 @@ package main
 
 import (
 	"fmt"
+	"go/constant"
 	"go/token"
 	"go/types"
 	"sort"
@@ -85,9 +86,54 @@ func ruleCacheKey(rule string) func(r *Run) {
 		for _, site := range sites {
 			filled[site.in] = true
 		}
-		enF := w.Field("rux", "Router", "enableCaching")
-		crF := w.Field("rux", "Router", "cachedRoutes")
-		for i, mc := range callsToFn(mf, tm.matchRegex) {
+		// "caching is off" = a test of router configuration only (fields of the Router and constants: the
+		// enable flag in whatever representation, the nil test of the cache) that also guards a fill site
+		routerT := w.Named("rux", "Router")
+		var isConfig func(v ssa.Value, d int) bool
+		isConfig = func(v ssa.Value, d int) bool {
+			if d > 6 {
+				return false
+			}
+			switch x := v.(type) {
+			case *ssa.Const:
+				return true
+			case *ssa.BinOp:
+				return isConfig(x.X, d+1) && isConfig(x.Y, d+1)
+			case *ssa.UnOp:
+				if x.Op == token.MUL {
+					fa, ok := x.X.(*ssa.FieldAddr)
+					return ok && isNamedPtr(fa.X.Type(), routerT)
+				}
+				return isConfig(x.X, d+1)
+			case *ssa.Convert:
+				return isConfig(x.X, d+1)
+			case *ssa.ChangeType:
+				return isConfig(x.X, d+1)
+			}
+			return false
+		}
+		guards := map[string]bool{} // condition key -> truth required to reach a fill
+		noteGuards := func(in ssa.Instruction) {
+			for _, ft := range factsAt(in) {
+				c0, pos := stripNot(ft.Cond)
+				if isConfig(c0, 0) {
+					key, flip := condKey(c0, nil)
+					guards[key] = (ft.True == pos) != flip
+				}
+			}
+		}
+		for _, site := range sites {
+			noteGuards(site.in)
+		}
+		if tm.cacheDyn != nil {
+			for _, c := range callsToFn(tm.cacheDyn, cm.set) {
+				noteGuards(c.(ssa.Instruction))
+			}
+		}
+		for i, mc := range callsIn(mf, func(c ssa.CallInstruction) bool {
+			_, plain := c.(*ssa.Call)
+			return plain && tm.scanFns[staticCallee(c)]
+		}) {
 			okFlag := extractOf(mc.Value(), 1)
 			okAll := okFlag != nil
 			if okAll {
@@ -104,11 +150,11 @@ func ruleCacheKey(rule string) func(r *Run) {
 						if d.If == nil {
 							continue
 						}
-						if isLoadOfField(d.Cond, enF) && !d.Truth {
-							hit = true
-						}
-						if b, okb := d.Cond.(*ssa.BinOp); okb && (isLoadOfField(b.X, crF) && isNilConst(b.Y)) && ((b.Op == token.EQL && d.Truth) || (b.Op == token.NEQ && !d.Truth)) {
-							hit = true
+						if isConfig(d.Cond, 0) {
+							key, flip := condKey(d.Cond, nil)
+							if want, isGuard := guards[key]; isGuard && (d.Truth != flip) != want {
+								hit = true // the configuration says: no caching
+							}
 						}
 					}
 					if !hit && fp.ret != nil {
@@ -128,27 +174,35 @@ func ruleC07Copy(r *Run) {
 	rule := "C07-COPY"
 	r.Floor(rule, 3)
 	tm := newTierModel(w)
-	cw := tm.copyWithParams
-	routeT := w.Named("rux", "Route")
-	var cell *ssa.Alloc
-	eachInstr(cw, func(in ssa.Instruction) {
-		if a, ok := in.(*ssa.Alloc); ok && types.Identical(a.Type().(*types.Pointer).Elem(), routeT) {
-			cell = a
-		}
-	})
-	if cell == nil {
-		r.Check(rule, "(*Route).copyWithParams:copy", cw.Pos(), false, "no new Route value is created")
-		return
-	}
-	whole := false
-	var wholeSt ssa.Instruction
-	for _, ref := range *cell.Referrers() {
-		if st, ok := ref.(*ssa.Store); ok && st.Addr == ssa.Value(cell) {
-			if ld, ok := st.Val.(*ssa.UnOp); ok && ld.Op == token.MUL && ld.X == ssa.Value(cw.Params[0]) {
-				whole, wholeSt = true, st
+	// the copy that goes into the cache: in copyWithParams, or written where the cache is filled
+	var rc *routeCopy
+	copies := findRouteCopies(w, tm)
+	for i := range copies {
+		if tm.copyWithParams != nil {
+			if copies[i].fn == tm.copyWithParams {
+				rc = &copies[i]
+			}
+		} else {
+			// the cell handed to cachedRoutes.Set
+			for _, c := range callsToFn(copies[i].fn, w.Fn("rux", "cachedRoutes.Set")) {
+				if a := c.Common().Args; len(a) == 3 && a[2] == ssa.Value(copies[i].cell) {
+					rc = &copies[i]
+				}
 			}
 		}
 	}
+	if rc == nil {
+		pos := tm.matchFn.Pos()
+		if tm.copyWithParams != nil {
+			pos = tm.copyWithParams.Pos()
+		}
+		r.Check(rule, "(*Route).copyWithParams:copy", pos, false, "no new Route value is created for the cache")
+		return
+	}
+	cw, cell := rc.fn, rc.cell
+	whole := rc.wholeSt != nil
+	wholeSt := rc.wholeSt
+	srcBase := unwrapAddr(rc.src).Base
 	allowed := map[*types.Var]bool{tm.regex: true, tm.matches: true, tm.params: true}
 	fieldwise := ""
 	if !whole {
@@ -159,7 +213,7 @@ func ruleC07Copy(r *Run) {
 			if fa, ok := ref.(*ssa.FieldAddr); ok {
 				for _, r2 := range *fa.Referrers() {
 					if st, ok := r2.(*ssa.Store); ok && st.Addr == ssa.Value(fa) && constructionCopy(st) {
-						if ld := st.Val.(*ssa.UnOp); unwrapAddr(ld.X).Base == ssa.Value(cw.Params[0]) {
+						if ld := st.Val.(*ssa.UnOp); unwrapAddr(ld.X).Base == srcBase {
 							copied[fieldVar(fa.X.Type(), fa.Field)] = true
 						}
 					}
@@ -188,7 +242,7 @@ func ruleC07Copy(r *Run) {
 			fv := fieldVar(fa.X.Type(), fa.Field)
 			for _, r2 := range *fa.Referrers() {
 				if st, ok := r2.(*ssa.Store); ok && st.Addr == ssa.Value(fa) {
-					if constructionCopy(st) && unwrapAddr(st.Val.(*ssa.UnOp).X).Base == ssa.Value(cw.Params[0]) {
+					if constructionCopy(st) && unwrapAddr(st.Val.(*ssa.UnOp).X).Base == srcBase {
 						continue // initialised from the receiver's own field
 					}
 					if !allowed[fv] {
@@ -207,6 +261,9 @@ func ruleC07Copy(r *Run) {
 	eachInstr(cw, func(in ssa.Instruction) {
 		if ret, ok := in.(*ssa.Return); ok && len(ret.Results) == 1 && ret.Results[0] == ssa.Value(cell) {
 			okRet = true
+		}
+		if c, ok := in.(*ssa.Call); ok && tm.copyWithParams == nil && staticCallee(c) == w.Fn("rux", "cachedRoutes.Set") && len(c.Call.Args) == 3 && c.Call.Args[2] == ssa.Value(cell) {
+			okRet = true // the copy (not the shared route) is what goes into the cache
 		}
 	})
 	r.Check(rule, "(*Route).copyWithParams:returns the copy", cw.Pos(), okRet, "the new value is returned (the shared route is not modified)")
@@ -379,6 +436,41 @@ func ruleCacheStruct(prefix string) func(r *Run) {
 		// --- Get returns the Value of the node found under hashMap[k]
 		g := cm.get
 		okGet := false
+		valueOf := func(res0 ssa.Value, p *pathCtx) bool {
+			res := func(v ssa.Value) ssa.Value {
+				if p != nil {
+					return resolvePhi(v, p)
+				}
+				return v
+			}
+			res0 = res(res0)
+			ld0, ok := res0.(*ssa.UnOp)
+			if !ok || ld0.Op != token.MUL {
+				return false
+			}
+			fa0, ok := ld0.X.(*ssa.FieldAddr)
+			if !ok || fieldVar(fa0.X.Type(), fa0.Field) != cm.valF {
+				return false
+			}
+			ta, isTA := res(fa0.X).(*ssa.TypeAssert)
+			if !isTA {
+				return false
+			}
+			ld, isLd := res(ta.X).(*ssa.UnOp)
+			if !isLd {
+				return false
+			}
+			fa, isFA := ld.X.(*ssa.FieldAddr)
+			if !isFA {
+				return false
+			}
+			ex, isEx := res(fa.X).(*ssa.Extract)
+			if !isEx {
+				return false
+			}
+			lk, isLk := ex.Tuple.(*ssa.Lookup)
+			return isLk && lk.Index == ssa.Value(g.Params[1]) && unwrapAddr(lk.X).hasField(cm.mapF)
+		}
 		eachInstr(g, func(in ssa.Instruction) {
 			ret, ok := in.(*ssa.Return)
 			if !ok || len(ret.Results) != 2 {
@@ -387,20 +479,29 @@ func ruleCacheStruct(prefix string) func(r *Run) {
 			if isRecoverBlock(in.Block()) {
 				return
 			}
-			res0 := resolveSpill(ret.Results[0])
-			if isLoadOfField(res0, cm.valF) {
-				base := res0.(*ssa.UnOp).X.(*ssa.FieldAddr).X
-				if ta, isTA := base.(*ssa.TypeAssert); isTA {
-					if ld, isLd := ta.X.(*ssa.UnOp); isLd {
-						if fa, isFA := ld.X.(*ssa.FieldAddr); isFA {
-							if ex, isEx := fa.X.(*ssa.Extract); isEx {
-								if lk, isLk := ex.Tuple.(*ssa.Lookup); isLk && lk.Index == ssa.Value(g.Params[1]) && unwrapAddr(lk.X).hasField(cm.mapF) {
-									okGet = true
-								}
-							}
-						}
-					}
+			if valueOf(resolveSpill(ret.Results[0]), nil) {
+				okGet = true
+				return
+			}
+			// the node travels through merged locals (a helper that returns (node, ok)): decide per path —
+			// every path that reports a hit returns the Value of the node found under the key
+			paths, complete := enumPaths(g, in, 3000)
+			if !complete || len(paths) == 0 {
+				return
+			}
+			hits, good := 0, true
+			for _, p := range paths {
+				okv := resolvePhi(resolveSpill(ret.Results[1]), p)
+				if k, isC := okv.(*ssa.Const); isC && k.Value != nil && k.Value.Kind() == constant.Bool && !constant.BoolVal(k.Value) {
+					continue // reports a miss
 				}
+				hits++
+				if !valueOf(resolveSpill(ret.Results[0]), p) {
+					good = false
+				}
+			}
+			if hits > 0 && good {
+				okGet = true
 			}
 		})
 		r.Check(pair, "(*cachedRoutes).Get:value", g.Pos(), okGet, map[bool]string{true: "Get(k) returns the Value of the node indexed under k", false: "Get does not return the value stored under the requested key"}[okGet])
@@ -440,10 +541,22 @@ func ruleCacheStruct(prefix string) func(r *Run) {
 			cutMiss := cutEdges(s, func(cond ssa.Value, truth bool) bool { return cond == found && !truth })
 			cutHit := cutEdges(s, func(cond ssa.Value, truth bool) bool { return cond == found && truth })
 			var lkIn ssa.Instruction = found.(*ssa.Extract).Tuple.(ssa.Instruction)
-			insertOnHit := pathExists(s, lkIn, func(x ssa.Instruction) bool {
-				c, ok := x.(ssa.CallInstruction)
-				return ok && (listOp(c) == "PushFront" || listOp(c) == "PushBack")
-			}, nil, cutMiss)
+			// on the paths where the key was found (decided along each path, also through merged flags) nothing is pushed
+			insertOnHit := false
+			if fps, complete := exploreFrom(lkIn, []condFact{{found, true}}, 4000); complete && len(fps) > 0 {
+				for _, fp := range fps {
+					for _, x := range fp.instrs {
+						if c, ok := x.(ssa.CallInstruction); ok && (listOp(c) == "PushFront" || listOp(c) == "PushBack") {
+							insertOnHit = true
+						}
+					}
+				}
+			} else {
+				insertOnHit = pathExists(s, lkIn, func(x ssa.Instruction) bool {
+					c, ok := x.(ssa.CallInstruction)
+					return ok && (listOp(c) == "PushFront" || listOp(c) == "PushBack")
+				}, nil, cutMiss)
+			}
 			r.Check(orient, "(*cachedRoutes).Set:existing key no insert", s.Pos(), !insertOnHit, map[bool]string{true: "storing an existing key inserts nothing", false: "storing an existing key inserts a second element"}[!insertOnHit])
 			// on hit: every path to return passes touch(element) and a store node.Value = v
 			touched, _ := allPathsHitCut(s, lkIn, func(x ssa.Instruction) bool {
